@@ -256,6 +256,36 @@ def h_once(params, vals, ctx):
     return same(o1, o2) and len(o3.code) == 4 * k
 
 
+def h_once_linked(params, vals, ctx):
+    """A '.once' file that is linked at top level and also included contributes only once."""
+    b, x = vals["B"], vals["X"]
+    require(0 <= b <= 30000 and b % 2 == 0)
+    require(-65536 < x < 65536)
+    order = ["B", "X"]
+    xs = "^D9001" if ctx.route == "inject" else _lit(x)
+    sfx = "" if ctx.route == "inject" else f"_t{os.getpid()}"
+    lib = os.path.join(AUX, f"lib{sfx}.mac")
+    lib_text = f".once\nLIB:: .word LIB, {xs}\n"
+    write_aux_file("c16", f"lib{sfx}.mac", lib_text)
+    main = os.path.join(AUX, "main_once.mac")
+    kind = params["kind"]
+    if kind == "linked-then-included":
+        files = [(lib, ".link {B}\n" + lib_text), (main, f'.word 1\n.include "lib{sfx}.mac"\n.word 2\n')]
+        want_len = 4 + 2 + 2
+    elif kind == "linked-twice":
+        files = [(lib, ".link {B}\n" + lib_text), (lib, lib_text)]
+        want_len = 4
+    else:  # included-then-linked
+        files = [(main, f'.link {{B}}\n.word 1\n.include "lib{sfx}.mac"\n.word 2\n'), (lib, lib_text)]
+        want_len = 2 + 4 + 2
+    o = assemble(files, vals, route=ctx.route, order=order)
+    ctx.observe_outcome(o)
+    ctx.reach(o.status == "ok")
+    if o.status != "ok" or o.errors:
+        return False
+    return len(o.code) == want_len
+
+
 def obligations(tier, seed):
     obs = []
     counts = [0, 1, 2, 3, 4] if tier == "thorough" else [0, 2, 3]
@@ -279,6 +309,8 @@ def obligations(tier, seed):
     obs.append(Ob(oid="insert/symbolic", harness=P + "h_insert_symbolic", params={}, vars={"B": "int", "DATA": "bytes"}, timeout=900))
     for kind in ("single", "first-of-two", "bare-end", "included"):
         obs.append(Ob(oid=f"end/{kind}", harness=P + "h_end", params={"kind": kind}, vars={"B": "int", "X": "int"}, timeout=300))
+    for kind in ("linked-then-included", "linked-twice", "included-then-linked"):
+        obs.append(Ob(oid=f"once-linked/{kind}", harness=P + "h_once_linked", params={"kind": kind}, vars={"B": "int", "X": "int"}, timeout=300))
     for k in (1, 2, 3):
         obs.append(Ob(oid=f"once/{k}", harness=P + "h_once", params={"times": k}, vars={"B": "int", "X": "int"}, timeout=300))
     return obs
